@@ -301,12 +301,17 @@ def clauses(tier, seed):
       Clause('numeric:SolarRadiation bounds, night side, global mean == S/4, periodicity (floats)', 'numeric', radf, run_radiation_numeric,
              replay=rerun_replay(run_radiation_numeric), group='jax-d', heavy=True),
   ]
+  from contracts import equivariance_contracts
+  from vlib.core import rerun_any_replay
+  for c in equivariance_contracts.held_suarez_clauses():
+    c.replay = rerun_any_replay(run_hs_drag)
+    cl.append(c)
   return cl
 
 
 MANIFEST = {
     'engine': 'pyvc+jxa',
-    'technique': ('contract-based deductive: VCs generated from the real source of the radiation and Held-Suarez coefficient functions in '
+    'technique': ('contract-based deductive: HeldSuarezForcing.explicit_terms proved equal to Rayleigh drag on the unclipped wind + Newtonian relaxation as an operator expression (all fields, sizes); VCs generated from the real source of the radiation and Held-Suarez coefficient functions in '
                   'elementwise mode (z3 NRA, uninterpreted sin/cos/exp/log with stated axioms); jaxpr static analysis for the tendency '
                   'structure; bounded numeric twins (drag matrix on complete basis, relaxation vs independent spec, global mean)'),
     'text': ('other: pointwise bounds / night-side zero / periodicity / phase reduction / coefficient signs are proved for all inputs from the '
